@@ -184,8 +184,8 @@ Definition closest_encloser_nsec (q o nx : rname) : rname :=
 
 Definition rec_covers (x : rname) (r : cnsec) : bool := nsec_covers (c_owner r) (c_next r) x.
 
-(* VerifyNameErrorNSEC on the effective (DNAME-rewritten) canonical qname *)
-Definition verify_nameerror_nsec (qn : rname) (set : list cnsec) : err :=
+(* VerifyNameErrorNSEC BEFORE fix 130ba3b, on the effective (DNAME-rewritten) canonical qname *)
+Definition verify_nameerror_nsec_old (qn : rname) (set : list cnsec) : err :=
   match find (rec_covers qn) set with            (* empty set: no covering record *)
   | None => E_missing
   | Some c =>
@@ -200,8 +200,8 @@ Definition nodata_bitmap_check (qtype : N) (bm : list N) : err :=
   else if (qtype =? T_DS) && types_set bm [T_SOA] then E_bad_deleg
   else E_ok.
 
-(* VerifyNODATANSEC *)
-Definition verify_nodata_nsec (qn : rname) (qtype : N) (set : list cnsec) : err :=
+(* VerifyNODATANSEC BEFORE fix 130ba3b *)
+Definition verify_nodata_nsec_old (qn : rname) (qtype : N) (set : list cnsec) : err :=
   match find (fun r => rname_eqb (c_owner r) qn) set with
   | Some r => nodata_bitmap_check qtype (c_types r)
   | None =>
@@ -314,9 +314,11 @@ Definition exact_nodata_check (qtype : N) (bm : list N) : err :=
   else if negb (qtype =? T_DS) && deleg_bitmap bm then E_bad_deleg
   else E_ok.
 
-(* ---- the same two verifiers with props/C02/fix.patch applied.  Which variant describes the
-   tree under test is decided from the source text on every run (the fixmark definitions of Gen.C02). *)
-Definition verify_nameerror_nsec_fixed (qn : rname) (set : list cnsec) : err :=
+(* ---- VerifyNameErrorNSEC / VerifyNODATANSEC as they are since fix 130ba3b (props/C02/fix.patch):
+   empty-non-terminal test, ancestor-cut test, "*." for a root encloser, wildcard-ENT test,
+   RFC 6840 §4.1 test.  The *_old definitions above are the code before that commit; they are
+   kept only for the regression Examples (Proofs_NsecTop.v) and are not what check_case accepts. *)
+Definition verify_nameerror_nsec (qn : rname) (set : list cnsec) : err :=
   match find (rec_covers qn) set with
   | None => E_missing
   | Some c =>
@@ -331,7 +333,7 @@ Definition verify_nameerror_nsec_fixed (qn : rname) (set : list cnsec) : err :=
         end
   end.
 
-Definition verify_nodata_nsec_fixed (qn : rname) (qtype : N) (set : list cnsec) : err :=
+Definition verify_nodata_nsec (qn : rname) (qtype : N) (set : list cnsec) : err :=
   match find (fun r => rname_eqb (c_owner r) qn) set with
   | Some r => exact_nodata_check qtype (c_types r)
   | None =>
@@ -348,20 +350,6 @@ Definition verify_nodata_nsec_fixed (qn : rname) (qtype : N) (set : list cnsec) 
           end
       end
   end.
-
-Definition has_marker (m : String.string) (l : list (list N)) : bool :=
-  existsb (list_eqb N.eqb (bytes_of_string m)) l.
-Definition fix_nameerror_nsec : bool := has_marker "nsecAncestorCut(" fixmark_nameerror_nsec.
-(* a "q.Qtype != dns.TypeDS && typesSet(..." test inside the verifier: character 8 is '!' *)
-Definition has_neq_ds (l : list (list N)) : bool := existsb (fun s => nth 8 s 0 =? 33) l.
-Definition fix_nodata_nsec : bool := has_neq_ds fixmark_nodata_nsec.
-Definition fix_nodata_nsec3 : bool := has_neq_ds fixmark_nodata_nsec3.
-
-Definition verify_nameerror_nsec_cur (qn : rname) (set : list cnsec) : err :=
-  if fix_nameerror_nsec then verify_nameerror_nsec_fixed qn set else verify_nameerror_nsec qn set.
-Definition verify_nodata_nsec_cur (qn : rname) (qtype : N) (set : list cnsec) : err :=
-  if fix_nodata_nsec then verify_nodata_nsec_fixed qn qtype set else verify_nodata_nsec qn qtype set.
-
 
 (* closestEncloserFromAggressiveNSEC *)
 Definition closest_encloser_aggr (q : rname) (c : cnsec) : option rname :=
